@@ -677,6 +677,37 @@ impl<'a> Vm<'a> {
                     crate::lex::push_rune(&mut out, cp);
                     push!(Value::Str(Rc::from(out)));
                 }
+                Ins::StrToRunes => {
+                    let v = pop!();
+                    let bytes: Vec<u8> = match &v {
+                        Value::Str(b) => b.to_vec(),
+                        _ => return Err(self.rt_error(PanicClass::Other, "internal: []rune of a non-string")),
+                    };
+                    // decode as Go does: each invalid byte becomes U+FFFD
+                    let mut vals: Vec<Value> = Vec::new();
+                    let mut i = 0usize;
+                    while i < bytes.len() {
+                        match std::str::from_utf8(&bytes[i..]) {
+                            Ok(rest) => {
+                                for ch in rest.chars() {
+                                    vals.push(Value::Int(ch as i64));
+                                }
+                                break;
+                            }
+                            Err(e) => {
+                                let good = e.valid_up_to();
+                                for ch in std::str::from_utf8(&bytes[i..i + good]).unwrap_or("").chars() {
+                                    vals.push(Value::Int(ch as i64));
+                                }
+                                vals.push(Value::Int(0xFFFD));
+                                i += good + 1;
+                            }
+                        }
+                    }
+                    let n = vals.len() as u32;
+                    let arr = self.alloc_array(vals, n)?;
+                    push!(Value::Slice { arr, off: 0, len: n, cap: n });
+                }
                 Ins::ToIface(t) => {
                     let v = pop!();
                     let c = self.alloc_cell(v)?;
